@@ -327,8 +327,8 @@ def check_segment(op, cls, var, w, facts, basekeys):
     return None
 
 
-def r5_gates(ctx, prog):
-    r = ctx.rule('C08.R5', 'object-level gates: MODIFIABLE / COPYABLE / DESTROYABLE false and privacy downgrade stop the call; TRUSTED only by the SO', floor=6, engine='E1+E3 finite-domain')
+def r5_gates(ctx, prog, rule_id='C08.R5'):
+    r = ctx.rule(rule_id, 'object-level gates: MODIFIABLE / COPYABLE / DESTROYABLE false and privacy downgrade stop the call; TRUSTED only by the SO', floor=6, engine='E1+E3 finite-domain')
     f = prog.fn('SoftHSM::C_SetAttributeValue')
     obj = handle_objects(f)[param_name(f, 1)][0][0]
     o = outcomes(f, prog, {'isInitialised': 1, re.compile(r'getBooleanValue\(%s,CKA_MODIFIABLE,\w+\)' % obj): 0}, record={'saveTemplate', 'setAttribute'})
